@@ -7,3 +7,8 @@ open Photon.ObjCache
 #print axioms C19_referenced_is_live
 #print axioms C19_no_poison_beyond_cooldown
 #print axioms C19_lastFail_only_from_failed_ctor
+#print axioms Photon.ObjLog.C19_mv_destroy
+#print axioms Photon.ObjLog.C19_mv_ctor
+#print axioms Photon.ObjLog.C19_mv_acquire
+#print axioms Photon.ObjLog.C19_mv_never_dead
+#print axioms Photon.ObjLog.C19_mv_referenced_is_live
